@@ -3,6 +3,7 @@ real FileBuilder, one on the reference model."""
 import os
 import posixpath as pp
 
+from . import faults
 from .dsl import KINDS, KINDS_CACHED, jcopy
 from .refmodel import RefRun, jround_checked
 
@@ -82,18 +83,48 @@ class RealApi:
         return self._root
 
     def write(self, text):
-        with open(self.target, 'w') as f:
-            f.write(text)
-        self.sb.stamp(self.target)
+        with faults.paused():
+            with open(self.target, 'w') as f:
+                f.write(text)
+            self.sb.stamp(self.target)
+        self.last_written = text
 
     def build_file(self, rel, cmp, fname, body, args, kwargs):
         p = self.sb.p(rel) if isinstance(rel, str) else rel
         self.log['bf_paths'].append(rel)
+        C = self.log.setdefault('contract', [])
+        state = {}
 
         def fn(b2, path, *a, **kw):
-            return body(RealApi(self.fb, self.sb, b2, path, self.log), *a, **kw)
-        return self.b.build_file_with_comparison(
-            p, _cmp_enum(self.fb, cmp), fname, fn, *args, **kwargs)
+            api = RealApi(self.fb, self.sb, b2, path, self.log)
+            api.last_written = None
+            state['api'] = api
+            with faults.paused():
+                if isinstance(p, str):
+                    if type(path) is not str or path != os.path.normpath(os.path.abspath(p)):
+                        C.append(['path_arg', rel, repr(path)])
+                if os.path.lexists(path):
+                    C.append(['target_present_at_start', rel])
+                if not os.path.isdir(os.path.dirname(path)):
+                    C.append(['parent_missing_at_start', rel])
+            return body(api, *a, **kw)
+        try:
+            rv = self.b.build_file_with_comparison(
+                p, _cmp_enum(self.fb, cmp), fname, fn, *args, **kwargs)
+        except Exception:
+            if 'api' in state:
+                with faults.paused():
+                    if os.path.lexists(p):
+                        C.append(['target_exists_after_failure', rel])
+            raise
+        with faults.paused():
+            if not os.path.isfile(p):
+                C.append(['not_a_file_after_success', rel])
+            elif 'api' in state and state['api'].last_written is not None:
+                with open(p) as f:
+                    if f.read() != state['api'].last_written:
+                        C.append(['content_mismatch', rel])
+        return rv
 
     def subbuild(self, fname, body, args, kwargs):
         def fn(b2, *a, **kw):
